@@ -21,7 +21,9 @@ CONSTANTS Procs,          \* contenders (live processes running the recovery loo
           MaxRetries,     \* bound on the retry loop (the code's 2 s deadline)
           DeadlineFails,  \* TRUE: the deadline may expire at any retry; FALSE: retries only (behaviour generation)
           AsImplemented,
-          MayRelease      \* BOOLEAN: a serving contender may shut down (Drop)
+          MayRelease,     \* BOOLEAN: a serving contender may shut down (Drop)
+          CorruptIgnoresMeta  \* TRUE (pinned commit): corrupt cleanup gives up whenever meta.json exists;
+                              \* FALSE: it gives up only if the meta's owner is alive, and removes a dead owner's meta
 
 Absent == "absent"
 NoOne == "noone"
@@ -51,6 +53,7 @@ InitFiles(s) ==
     [] s = "dead_lock_meta" -> lock = Full(Dead) /\ meta = Meta(Dead) /\ serving = {}
     [] s = "dead_partial"   -> lock = Partial(Dead) /\ meta = AbsentF /\ serving = {}
     [] s = "dead_meta"      -> lock = AbsentF /\ meta = Meta(Dead) /\ serving = {}      \* a cleaner died between its two renames
+    [] s = "dead_partial_meta" -> lock = Partial(Dead) /\ meta = Meta(Dead) /\ serving = {}   \* ... and the next authority died while writing its lock
     [] s = "live_serving"   -> lock = Full(Resident) /\ meta = Meta(Resident) /\ serving = {Resident}
     [] s = "live_starting"  -> lock = Full(Resident) /\ meta = AbsentF /\ serving = {}
 
@@ -157,18 +160,22 @@ StaleDone(p) == /\ pc[p] = "s_done" /\ Goto(p, "start")        \* cleaned -> con
 \* ---- try_cleanup_corrupt_lock_file
 CorruptCheck(p) ==
   /\ pc[p] = "c_check"
-  /\ IF lock # AbsentF /\ meta = AbsentF
+  /\ IF lock # AbsentF /\ (meta = AbsentF \/ (~CorruptIgnoresMeta /\ ~Live(meta[2])))
        THEN Goto(p, "c_rename") /\ UNCHANGED <<retries, result>>   \* hook auth.corrupt.checked
        ELSE Retry(p)                                           \* cleanup returned false: keep waiting
   /\ UNCHANGED <<start, lock, meta, exp, holds, serving, stolen>>
 CorruptRename(p) ==
   /\ pc[p] = "c_rename"
   /\ IF lock = AbsentF
-       THEN Retry(p) /\ UNCHANGED <<lock, stolen>>
+       THEN Retry(p) /\ UNCHANGED <<lock, meta, stolen>>
        ELSE IF AsImplemented \/ (lock[1] = "partial" /\ IsDead(lock[2]))
-         THEN lock' = AbsentF /\ stolen' = Steal(p, "lock", lock, "CorruptRename") /\ Goto(p, "start") /\ UNCHANGED <<retries, result>>   \* hook auth.corrupt.renamed
-         ELSE Retry(p) /\ UNCHANGED <<lock, stolen>>
-  /\ UNCHANGED <<start, meta, exp, holds, serving>>
+         THEN /\ lock' = AbsentF /\ Goto(p, "start") /\ UNCHANGED <<retries, result>>   \* hook auth.corrupt.renamed
+              \* the repaired cleanup also removes the meta file of the dead owner it saw
+              /\ IF ~CorruptIgnoresMeta /\ meta # AbsentF /\ ~Live(meta[2])
+                   THEN meta' = AbsentF /\ stolen' = Steal(p, "lock", lock, "CorruptRename")
+                   ELSE meta' = meta /\ stolen' = Steal(p, "lock", lock, "CorruptRename")
+         ELSE Retry(p) /\ UNCHANGED <<lock, meta, stolen>>
+  /\ UNCHANGED <<start, exp, holds, serving>>
 
 Step(p) == \/ TryCreate(p) \/ WriteRecord(p) \/ WriteMeta(p) \/ DropEnter(p) \/ DropMeta(p) \/ DropLock(p)
            \/ ReadMeta(p) \/ ReadLock(p) \/ StaleCheck(p) \/ StaleRename(p) \/ StaleMetaRead(p)
@@ -183,7 +190,7 @@ NeverStealLive == stolen = {}
 HolderOwnsLock == \A p \in holds : lock = Full(p)
 Safe == AtMostOne /\ NeverStealLive
 \* a store whose previous authority crashed becomes usable again: some contender gets the role
-DeadStart == start \in {"none", "dead_lock", "dead_lock_meta", "dead_partial", "dead_meta"}
+DeadStart == start \in {"none", "dead_lock", "dead_lock_meta", "dead_partial", "dead_meta", "dead_partial_meta"}
 Usable == DeadStart => <>(\E p \in Procs : result[p] = "ok")
 \* nobody succeeds against a live resident authority
 Settled == \A p \in Procs : pc[p] \in {"failed", "serving", "gone"}
